@@ -21,7 +21,7 @@ def one_run(cfg, steps):
     env.update({"PYTHONHASHSEED": str(cfg["hashseed"]), "DET_MODULES": cfg["module"], "DET_OFFSET": str(cfg["offset"]),
                 "DET_ORDER": cfg["order"], "DET_STEPS": str(steps), "DET_SWEEP": "1" if cfg.get("sweep") else "0", "PYTHONPATH": f"{os.environ.get('EXO_SRC', '/repo/src')}:{ROOT}"})
     p = subprocess.run(["/venv/bin/python", "-m", "harness.detrun"], cwd=ROOT, env=env, capture_output=True, text=True,
-                       timeout=1500)
+                       timeout=5400)
     obs = []
     for line in p.stdout.splitlines():
         try:
